@@ -13,6 +13,10 @@ from .decide import Decider, Hints, cross_check
 from . import stubs
 
 
+class RealCodeRaised(Exception):
+    pass
+
+
 class HarnessError(Exception):
     """the machinery (not the code under test) is wrong: translator validation failed, a twin was not
     refuted, a model did not reproduce."""
@@ -38,7 +42,8 @@ class Traced:
     (python scalars, strings, static fields) is closed over.  `conc` selects leaves kept concrete."""
 
     def __init__(self, f, args, prefix="a", conc=None, x64=True, use_stubs=False, sym_consts=False,
-                 trace_only_is_violation=False):
+                 trace_only_is_violation=False, missing="hint"):
+        self.missing = missing          # value of symbols absent from a model: "hint" or "example"
         self.f = f; self.args = args; self.prefix = prefix; self.use_stubs = use_stubs
         self.dyn, self.static = eqx.partition(args, _is_arr)
         flat, self.in_tree = jax.tree_util.tree_flatten(self.dyn)
@@ -108,7 +113,7 @@ class Traced:
             for idx in np.ndindex(*a.shape):
                 nm = n + "".join(f"_{i}" for i in idx)
                 if nm in env: v = env[nm]
-                elif kind == "f": v = hints.value(nm, rnd)
+                elif kind == "f" and self.missing == "hint": v = hints.value(nm, rnd)
                 else: v = a[idx]
                 a[idx] = float(v) if kind == "f" else v
             leaves.append(jnp.asarray(a, dtype=l.dtype))
@@ -306,7 +311,10 @@ class Recorder:
 
     # ------------------------------------------------------------------
     def _concrete_goals(self, tr, goal_fn, leaves, stubbed=False, concrete_pred=None):
-        real = tr.call_real(leaves, stubbed=stubbed)
+        try:
+            real = tr.call_real(leaves, stubbed=stubbed)
+        except Exception as ex:
+            raise RealCodeRaised(f"{type(ex).__name__}: {str(ex).splitlines()[0][:200] if str(ex) else ''}")
         Oc, _ = tr.concretize_out(real)
         Ac = tr._rebuild([conc_array(np.asarray(l)) for l in leaves])
         old = dict(tm.CONCRETE)
@@ -323,8 +331,8 @@ class Recorder:
             return dict(reproduced=None, note="interpreter obligation: no concrete predicate")
         try:
             goals = self._concrete_goals(tr, goal_fn, leaves)
-        except Exception as ex:     # the real code raising on the model input is itself a reproduction
-            return dict(reproduced=True, note=f"real code raised {type(ex).__name__}: {ex}")
+        except RealCodeRaised as ex:     # the real code raising on the model input is itself a reproduction
+            return dict(reproduced=True, note=f"real code raised {ex}")
         g = goals.get(gname)
         if g is None: return dict(reproduced=None, note="goal not found in concrete run")
         if not g.is_const:
